@@ -215,3 +215,46 @@ pub fn decisions_strategy(max: usize) -> impl proptest::strategy::Strategy<Value
     // mostly "keep running" bytes with pre-emptions sprinkled in
     prop::collection::vec(prop_oneof![3 => 0u8..192, 1 => 192u8..=255], 0..max)
 }
+
+/// One execution of `f` under shuttle's stock PCT scheduler (priority-based, `depth` priority
+/// change points): good at ordering bugs that need few but specific pre-emptions.  Timed waits
+/// time out after one yield.
+pub fn explore_pct<F>(seed: u64, depth: usize, max_steps: usize, f: F) -> Explored
+where
+    F: Fn() + Send + Sync + 'static,
+{
+    let st = Rc::new(RefCell::new(SchedState::default()));
+    let hook: Rc<dyn SchedHook> = Rc::new(Hook { st: st.clone() });
+    set_sched_hook(Some(hook));
+    let mut cfg = shuttle::Config::new();
+    cfg.stack_size = 1 << 20;
+    cfg.failure_persistence = shuttle::FailurePersistence::None;
+    cfg.max_steps = shuttle::MaxSteps::FailAfter(max_steps);
+    cfg.silence_warnings = true;
+    let sched = shuttle::scheduler::PctScheduler::new_from_seed(seed, depth.max(1), 1);
+    let runner = shuttle::Runner::new(sched, cfg);
+    let r = catch(move || {
+        runner.run(f);
+    });
+    set_sched_hook(None);
+    let s = st.borrow();
+    let (panic, step_bound_hit, deadlock) = match r {
+        Ok(()) => (None, false, false),
+        Err(pi) => {
+            let sb = pi.msg.contains("max_steps");
+            let dl = pi.msg.contains("deadlock");
+            (Some(pi), sb, dl)
+        }
+    };
+    Explored {
+        steps: s.points.iter().sum(),
+        fair_steps: 0,
+        switches: 0,
+        preemptions: 0,
+        decisions_used: 0,
+        points: s.points,
+        panic,
+        step_bound_hit,
+        deadlock,
+    }
+}
